@@ -186,5 +186,86 @@ def run(ctx):
             ctx.instance(f'R5/{m.nice}/{cf.nice}')
             if not allowed.search(cf.nice):
                 ctx.finding(f'R5/{m.nice}/{cf.nice}', f'{cf.nice} calls the privilege mutator {m.nice}', cf.loc)
+    # ---------------------------------------------------------------- R6 privilege list edits visit every entry
+    ctx.rule('C26.R6', 'in the catalog privilege store, an index-driven loop never removes the element at the cursor and then advances '
+             'the cursor on the same path (the element shifted into the gap would be skipped: a duplicate grant survives REVOKE)')
+    from ..engine.cfg import cfg as _cfg, defs_of as _defs, op_local as _ol
+    npf = 0
+    for f in prog.fns.values():
+        if f.unit != 'vibesql_catalog' or 'store::privileges' not in f.nice:
+            continue
+        npf += 1
+        g = _cfg(f)
+        d = _defs(f)
+        loops = set()
+        for comp in g.sccs():
+            loops |= set(comp)
+        for i, t in f.calls():
+            if i not in loops or callee_name(t) != 'alloc::vec::Vec::<T, A>::remove' or t.get('to') is None:
+                continue
+            # the index operand, traced to a named cursor local
+            l = _ol(t['args'][1]); cur = None
+            for _ in range(4):
+                if l is None:
+                    break
+                if l in f.names:
+                    cur = l; break
+                ds = d.get(l, [])
+                if len(ds) != 1 or ds[0][1] != 'assign' or ds[0][2]['r'] not in ('use', 'cast'):
+                    break
+                l = _ol(ds[0][2]['a'])
+            ctx.instance(f'R6/{f.nice}/remove', {'rule': 'C26.R6', 'fn': f.nice, 'cursor': f.names.get(cur)})
+            if cur is None:
+                continue
+            # blocks reachable from the removal without passing a loop back edge
+            back = set(g.back_edges())
+            seen = set(); st = [t['to']]
+            while st:
+                b = st.pop()
+                if b in seen:
+                    continue
+                seen.add(b)
+                for s2 in g.succ[b]:
+                    if (b, s2) not in back:
+                        st.append(s2)
+            for b in seen & loops:
+                for st_ in f.blocks[b]['s']:
+                    if 'd' in st_ and st_['v']['r'] == 'bin' and st_['v']['op'] in ('Add', 'AddWithOverflow'):
+                        pa = op_place(st_['v']['a'])
+                        if pa and pa[0] == cur and op_const(st_['v']['b']) == 1:
+                            ctx.finding(f'R6/{f.nice}/remove-then-advance', f'{f.nice}: removes the entry at `{f.names.get(cur)}` and then '
+                                        f'increments it on the same path; the next entry is skipped', f'{f.file}:{st_["l"]}')
+    ctx.floor('functions of the catalog privilege store', npf, 5)
+
+    # ---------------------------------------------------------------- R7 all privilege checks precede all mutations
+    ctx.rule('C26.R7', 'inside one executor function no PrivilegeChecker::check_* call is reachable after a row mutation of the same '
+             'function succeeded (a refused statement must change nothing: validate every object first, then mutate)')
+    mutating = {f.path for f in prog.fns.values() if f.nice in (M.ROW_MUTATORS | M.DB_INSERT)}
+    cut = {f.path for f in prog.fns.values() if f.nice.startswith(EX + 'trigger_execution::TriggerFirer::') or f.nice.startswith(EX + 'procedural::')}
+    changed = True
+    while changed:
+        changed = False
+        for pth, outs in cg.out.items():
+            if pth not in mutating and pth not in cut and outs & mutating:
+                mutating.add(pth); changed = True
+    from ..engine.paths import search as _search, success_starts as _ss
+    from ..engine.facts import callee_path as _cp
+    n7 = 0
+    for f in scope:
+        if f.path in cut:
+            continue
+        chk = {i for i, t in f.calls() if callee_name(t) in CHECKS}
+        if not chk:
+            continue
+        for i, t in f.calls():
+            if _cp(t) in mutating:
+                n7 += 1
+                reached, _ = _search(f, _ss(f, i), frozenset(), loop_model=True)
+                ctx.instance(f'R7/{f.nice}/{callee_name(t)}')
+                if reached & chk:
+                    ctx.finding(f'R7/{f.nice}/{callee_name(t)}', f'{f.nice}: a privilege check is still ahead after {callee_name(t).rsplit("::",1)[1]} '
+                                f'already changed rows; when it refuses, the statement fails with part of its effect applied', f.loc)
+    ctx.extra['R7_sites'] = n7
+
     ctx.assumptions.append('a read of the statement\'s own target table under the statement\'s DML privilege counts as authorised (R2)')
     ctx.assumptions.append('argument agreement between the checked table name and the table read is not tracked across calls')
